@@ -141,7 +141,10 @@ class isoparser(object):
 
         if len(components) > 3 and components[3] == 24:
             components[3] = 0
-            return datetime(*components) + timedelta(days=1)
+            try:
+                return datetime(*components) + timedelta(days=1)
+            except OverflowError:
+                raise ValueError('24:00 on the last representable day')
 
         return datetime(*components)
 
